@@ -401,6 +401,8 @@ where
             };
 
             tracing::trace!(read.bytes = bytes.len());
+            #[cfg(feature = "verif")]
+            crate::verif::event(crate::verif::Ev::RawFrameIn);
             let Self {
                 ref mut hpack,
                 max_header_list_size,
@@ -475,5 +477,16 @@ impl<T> From<Continuable> for Frame<T> {
                 push.into()
             }
         }
+    }
+}
+
+#[cfg(feature = "verif")]
+impl<T> FramedRead<T> {
+    pub(crate) fn verif_fill(&self, s: &mut crate::verif::CodecStats) {
+        s.read_buffer_len = self.inner.read_buffer().len();
+        s.partial_header_len = self.partial.as_ref().map(|p| p.buf.len()).unwrap_or(0);
+        let (size, max) = self.hpack.verif_table_size();
+        s.hpack_decoder_size = size;
+        s.hpack_decoder_max = max;
     }
 }
